@@ -611,21 +611,30 @@ def real_socket_keepalive_probe():
         if not (data.startswith(b"HTTP/1.1 200") and data.endswith(want)):
             fails.append("%s was not served although a handler thread was free: the client received %r" % (what, data[:80]))
             return False
-        return True
+        # a response that announces "Connection: close" ends the connection: nothing more can be asked of it
+        return b"connection: close" not in data.split(b"\r\n\r\n", 1)[0].lower()
+    def send(c, data, what):
+        try:
+            c.sendall(data)
+            return True
+        except OSError as e:
+            fails.append("%s: the worker had closed the connection (send failed with %s) although it was kept alive and the "
+                         "keep-alive time (5 s) had not passed" % (what, type(e).__name__))
+            return False
     try:
         c = socket.create_connection(ls.getsockname())
         c.sendall(b"GET /one HTTP/1.1\r\nHost: x\r\n\r\n")
         if answer(c, "request 1 (one piece)", b"GET /one 0"):
             time.sleep(0.3)
-            c.sendall(b"GET /two HTTP/1.1\r\nHo")
+            ok = send(c, b"GET /two HTTP/1.1\r\nHo", "request 2")
             time.sleep(0.5)
-            c.sendall(b"st: x\r\n\r\n")
-            if answer(c, "request 2 of a kept-alive connection (head in two pieces)", b"GET /two 0"):
+            ok = ok and send(c, b"st: x\r\n\r\n", "request 2")
+            if ok and answer(c, "request 2 of a kept-alive connection (head in two pieces)", b"GET /two 0"):
                 time.sleep(0.3)
-                c.sendall(b"POST /three HTTP/1.1\r\nHost: x\r\nContent-Length: 10\r\n\r\n")
+                ok = send(c, b"POST /three HTTP/1.1\r\nHost: x\r\nContent-Length: 10\r\n\r\n", "request 3")
                 time.sleep(0.5)
-                c.sendall(b"0123456789")
-                answer(c, "request 3 of a kept-alive connection (body after its head)", b"POST /three 10")
+                if ok and send(c, b"0123456789", "request 3"):
+                    answer(c, "request 3 of a kept-alive connection (body after its head)", b"POST /three 10")
         c.close()
         # the first request of a fresh connection in two pieces
         c = socket.create_connection(ls.getsockname())
